@@ -372,7 +372,8 @@ static void ZSTD_DCtx_selectFrameDDict(ZSTD_DCtx* dctx) {
         const ZSTD_DDict* frameDDict = ZSTD_DDictHashSet_getDDict(dctx->ddictSet, dctx->fParams.dictID);
         if (frameDDict) {
             DEBUGLOG(4, "DDict found!");
-            ZSTD_clearDict(dctx);
+            /* only the reference changes : a dictionary owned by the context (ddictLocal) stays alive until the
+             * next explicit dictionary change, callers up the stack may still hold its content (multi-frame input) */
             dctx->dictID = dctx->fParams.dictID;
             dctx->ddict = frameDDict;
             dctx->dictUses = ZSTD_use_indefinitely;
